@@ -172,7 +172,7 @@ func KeywordCasings(words []string, f func(s string)) int {
 			}
 		}
 		for _, v := range []string{w, lo, string(mixed)} {
-			for _, s := range []string{v, "a." + v, "a ." + v, "a. " + v, "`" + v + "`", v + "1", v + "_", "_" + v, v + " " + v, "@" + v, v + ".x", "1." + v, ")." + v, "]." + v, "(" + v + ")", v + "." + v + "." + v} {
+			for _, s := range []string{v, "a." + v, "a ." + v, "a. " + v, "`" + v + "`", v + "1", v + "_", "_" + v, v + " " + v, "@" + v, v + ".x", "1." + v, ")." + v, "]." + v, "(" + v + ")", v + "." + v + "." + v, "a." + v + " " + v, "a." + v + " x " + v, v + " a." + v, "f()." + v + " " + v} {
 				n++
 				f(s)
 			}
